@@ -86,3 +86,11 @@ def to_real(a):
 
 def rdiv(a, b):
     return Fraction(a) / Fraction(b)
+
+
+GHOST = {}
+
+
+def ghost(name, *args):
+    """native meaning of a ghost function: supplied by the replay harness"""
+    return GHOST[name](*args)
